@@ -996,7 +996,16 @@ class XandikosBackend(webdav.Backend):
     def _mark_as_principal(self, path):
         self._user_principals.add(posixpath.normpath(path))
 
+    def _is_control_path(self, relpath):
+        # The control directories of the git repositories that make up the
+        # data directory are not part of the WebDAV namespace: a client able
+        # to create or modify ".git/config" there decides where a repository
+        # keeps its working tree.
+        return GIT_PATH in posixpath.normpath("/" + relpath).split(posixpath.sep)
+
     def create_collection(self, relpath):
+        if self._is_control_path(relpath):
+            raise FileNotFoundError(relpath)
         p = self._map_to_file_path(relpath)
         return Collection(self, relpath, TreeGitStore.create(p))
 
@@ -1016,6 +1025,8 @@ class XandikosBackend(webdav.Backend):
             raise ValueError("relpath %r should start with /")
         if relpath == "/":
             return RootPage(self)
+        if self._is_control_path(relpath):
+            return None
         p = self._map_to_file_path(relpath)
         if p is None:
             return None
